@@ -15,7 +15,7 @@ use crate::sx::*;
 use easy_ml::interop::{MatrixRefTensor, TensorRefMatrix};
 use easy_ml::matrices::views::{MatrixRange, MatrixReverse, Reverse};
 
-enum Wrapper {
+pub enum Wrapper {
     Range(usize, usize, usize, usize),
     StdRange(usize, usize, usize, usize),
     Reverse(bool, bool),
@@ -23,13 +23,13 @@ enum Wrapper {
     Tensor,
 }
 
-enum Leaf {
+pub enum Leaf {
     Matrix,
     Part(Vec<usize>, Vec<usize>, usize),
     Quadrant(usize, usize, usize),
 }
 
-fn wrapper(s: &Sx) -> Option<Wrapper> {
+pub fn wrapper(s: &Sx) -> Option<Wrapper> {
     let v = s.list()?;
     let tag = v.first()?.i64()?;
     Some(match (tag, v.len()) {
@@ -42,7 +42,7 @@ fn wrapper(s: &Sx) -> Option<Wrapper> {
     })
 }
 
-fn leaf(s: &Sx) -> Option<Leaf> {
+pub fn leaf(s: &Sx) -> Option<Leaf> {
     let v = s.list()?;
     let tag = v.first()?.i64()?;
     Some(match (tag, v.len()) {
@@ -76,12 +76,12 @@ fn shape2_sx(shape: &[(&'static str, usize); 2]) -> Sx {
     l(shape.iter().map(|(n, len)| l(vec![z(name_code(n)), z(*len)])).collect())
 }
 
-fn free(p: Ptr) {
+pub fn free(p: Ptr) {
     drop(unsafe { Box::from_raw(p) });
 }
 
 /// Err(result line): the partition panicked / a tensor wrapper was refused
-fn build(rows: usize, cols: usize, data: &[i64], lf: &Leaf, ws: &[Wrapper]) -> Result<(MDyn, Ptr), Sx> {
+pub fn build(rows: usize, cols: usize, data: &[i64], lf: &Leaf, ws: &[Wrapper]) -> Result<(MDyn, Ptr), Sx> {
     let Some((m, p)) = mleaf(rows, cols, data) else { return Err(panicked()) };
     let mut cur: MDyn = match lf {
         Leaf::Matrix => Box::new(m),
